@@ -210,11 +210,16 @@ macro "arm" : tactic => `(tactic| first
   | exact ret_okOrOv _ _ (good_home _ _ _ _ _ (by assumption) rfl (setMarginsTB_ok _ _ _ (by assumption)) rfl rfl rfl rfl (by assumption))
   | exact ret_okOrOv _ _ (good_clear _ _ _ _ (by assumption) (clearScreen_ok _ _ (by assumption)) rfl)
   | exact ret_okOrOv _ _ (good_x _ _ _ (by assumption) rfl (Int.le_refl 0) (by omega) (Or.inl (ScrOk.tw1 (by assumption))))
-  | exact ret_okOrOv _ _ (good_resize _ _ _ _ (by assumption) rfl))
+  | exact ret_okOrOv _ _ (good_resize _ _ _ _ (by assumption) rfl)
+  | (exfalso; rename_i hh; exact not_echPanics _ _ _ (by assumption) hh)
+  | (exfalso; rename_i hh; exact not_lineOpPanics _ _ (by assumption) (by assumption) hh)
+  | (exfalso; rename_i hh; exact not_lineOpPanics _ _ (by assumption) (by assumption) hh.2))
 
 theorem csiFinal_good (cfg : Cfg) (o : Orc) (st : St) (isStart : Bool) (ch : Char) (h : GoodSt st) (hb : st.s.bh ≤ 1073741854) :
     okOrOv (csiFinal cfg o st isStart ch) GoodR := by
   have ⟨g1, g2, g3⟩ := h
+  have hx0 : 0 ≤ st.c.x := g2.1
+  have hy0 : 0 ≤ st.c.y := g2.2.2.1
   unfold csiFinal
   simp only [left, right, up, down]
   repeat' (first | (apply okOrOv_ite <;> intro _) | split)
@@ -323,7 +328,7 @@ theorem stepCore_good (cfg : Cfg) (o : Orc) (inv : Int → St → Res St) (st : 
   apply okOrOv_ite
   · intro _; exact ⟨_, rfl⟩
   · intro hr
-    have hr' : RangeOk st.s st.c := Classical.not_not.mp hr
+    have hr' : RangeOk st.s st.c := (Classical.not_not.mp hr).1
     have hb := bh_of_good st h hr'
     split
     · -- music
